@@ -413,7 +413,7 @@ def oracle(case, obs):
         want = [os.path.normpath(p) for p in cmd_lists["paths"]] if cmd_lists.get("paths") else [resolve(f, p) for p in fl]
         if a.get("paths") != want:
             out.append(("paths = %r, expected %r (%s)" % (a.get("paths"), want, "command line" if cmd_lists.get("paths") else
-                                                          "relative to the configuration file in %s" % config_dir(f)), "paths-resolution"))
+                                                          ("relative to the configuration file in %s" % config_dir(f)) if f else "no configuration file names paths"), "paths-resolution"))
     f, fl = file_list("outfiles")
     ff, ffl = file_list("format")
     if fl is not None and ffl is not None and (f is None or ff is None or f is ff):
